@@ -159,6 +159,7 @@ CHECKS = {
         "assumptions": ["ReadDelay >= 10us (ReadDelay 0 spins and cannot run on the virtual clock)"],
         "subs": [
             {"name": "close", "test": "TestClose", "quick": 350, "thorough": 3000, "shards": 16},
+            {"name": "pairs", "test": "TestPairs", "quick": None, "thorough": None, "shards": 16, "enum": True},
             {"name": "close-rt", "test": "TestCloseRT", "quick": 150, "thorough": 1500, "shards": 16, "race": True},
         ],
     },
